@@ -241,6 +241,11 @@ func main() {
 			rep.Missing = append(rep.Missing, k)
 			continue
 		}
+		if c.Inline {
+			// an `inline` contract only says that the body is expanded at every call site under contract: its
+			// obligations are generated and discharged there, in the caller's context
+			continue
+		}
 		if *only != "" && !strings.Contains(k, *only) {
 			continue
 		}
